@@ -379,7 +379,7 @@ func TestC08(t *testing.T) {
 		Level: "exploration",
 		Rule: "rapid draws histories (1-14 transactions of 1-4 create / update / patch / delete operations through a parent store and its plain (3/4) or extended (1/4) child store, committed, aborted by the caller or containing a rejected operation, Db.Update or Db.Batch). Listeners of every registration style (AddListener, AddEntityIdListener, AddEntityEventListenerF, AddEntityEventListener, AddEntityConstraint, AddUntypedEntityConstraint, asynchronous AddListener) are registered for every change type on both stores, plus a commit action per transaction and a tx-complete listener. " +
 			"For every transaction the observed multiset of (store, style, change type, id, delivered entity state) must EQUAL the multiset derived from the model (child entity: one event per style on the child store and one on the parent store; plain parent: parent store only; rolled-back or rejected: none), no callback may fire before the commit handler, the commit action runs exactly once iff committed, the tx-complete listener exactly once per committed Db.Update. " +
-			"Also generated: a second child store over the same parent, listener registrations naming all change types in one call, commit actions registered before the transaction, from nested updates and through a context derived with UpdateContext. " +
+			"Also generated: a second child store over the same parent, listener registrations naming all change types in one call, commit actions registered before the transaction, from nested updates and through a context derived with UpdateContext. Also: one asynchronous registration per change type, and the initial state handed to entity constraints on update (parent and child store). " +
 			"Non-trivial history: a committed transaction with >= 2 operations, a rollback after >= 1 operation queued events, or a child entity changed through the parent store. Distinct by hash of the history JSON.",
 		Assumptions: []string{"what a transaction emits after its caller ignored a failed operation and committed anyway is not asserted (every generated transaction returns the first error)",
 			"callbacks are awaited with a barrier transaction (its commit action) and a bounded poll for asynchronous listeners; timing never decides a verdict except 'not delivered within 5 s'",
